@@ -2,7 +2,7 @@
    lift (Model/Lift.v), evaluate (Model/IL.v).  Also the plumbing the extracted driver uses to build a state
    from a case line.  No proofs in this file. *)
 From Coq Require Import ZArith NArith List Bool.
-From BE Require Import Model.TableTypes Gen.Tables Model.Regs Model.Decode Model.IL Model.Lift.
+From BE Require Import Model.TableTypes Gen.Tables Model.Regs Model.Decode Model.IL Model.Lift Model.TempSafe.
 Import ListNotations.
 Open Scope Z_scope.
 
@@ -59,3 +59,7 @@ Definition sort_uniq (l : list Z) : list Z := fold_right dedup_sorted_insert [] 
 Definition obs_regs (s : mstate) : list N :=
   map (py_get (rg s)) [gPC; gBA; gI; gX; gY; gU; gS; gF].
 Definition obs_writes (s : mstate) : list (Z * Z) := map (fun a => (a, mem s a)) (sort_uniq (wlog s)).
+
+(* does the IL lifted for this instruction write every scratch register before reading it (Model/TempSafe.v)? *)
+Definition instr_temps_safe (i : instr) (addr : Z) : bool :=
+  match lift_instr i addr with Some prog => temps_safe prog | None => true end.
